@@ -152,6 +152,7 @@ fn extra_tail(solution: &[u8]) -> bool {
 pub fn ff_case(o: &mut Out, coin: &Coin, nc: &Coin, np: &Coin, puzzle: &[u8], solution: &[u8], marker: &str) {
     let line = format!("C19 ff {} {} {} {} {}{}{}", coin_s(coin), coin_s(nc), coin_s(np), hex::encode(puzzle), hex::encode(solution), marker,
         if extra_tail(solution) { " @extra-tail" } else { "" });
+    o.begin(&line);
     let (c, n, p, pz, so) = (*coin, *nc, *np, puzzle.to_vec(), solution.to_vec());
     let res = std::panic::catch_unwind(move || ff_impl(&c, &n, &p, &pz, &so)).unwrap_or("PANIC".into());
     o.case(&line, &res);
@@ -452,6 +453,7 @@ fn fpp_case(o: &mut Out, kind: &str, parent: &[u8; 32], amount: u64, c1: &T, c2:
     let mut pks = vec![]; valid_pks(c1, &mut pks); valid_pks(c2, &mut pks);
     let pk_s = if pks.is_empty() { "-".to_string() } else { pks.iter().map(hex::encode).collect::<Vec<_>>().join(",") };
     let line = format!("C19 fpp {} {} {} {} {} {}", kind, hex::encode(parent), amount, hex::encode(to_bytes(c1)), hex::encode(to_bytes(c2)), pk_s);
+    o.begin(&line);
     let (p1, p2, t1, t2) = (*parent, *parent, c1.clone(), c2.clone());
     let res = std::panic::catch_unwind(move || {
         let (f1, s1, ok1) = fpp_run(&p1, amount, &t1);
@@ -639,6 +641,7 @@ fn dd_case(o: &mut Out, flags: u32, t: &T) {
     let mut pks = vec![]; valid_pks(t, &mut pks);
     let pk_s = if pks.is_empty() { "-".to_string() } else { pks.iter().map(hex::encode).collect::<Vec<_>>().join(",") };
     let line = format!("C19 dd {} {} {}", flags, pk_s, hex::encode(&bytes));
+    o.begin(&line);
     let tt = t.clone();
     let res = std::panic::catch_unwind(move || match run_parse_owned(true, flags, 11_000_000_000, 0, &bytes) {
         Ok(Ok(c)) => {
